@@ -378,24 +378,35 @@ func polluterQuery(c, seq int) []byte {
 	return b
 }
 
-// execCookie: on ONE job (admission cap 1 / one connection) a query with a
-// client cookie from one client, then a query with an OPT and no cookie from
-// another client. The second reply must carry no COOKIE option at all.
-func execCookie(mode string) vlib.Res {
+// execCookie: on ONE job (admission cap 1 / one connection) a sequence of
+// queries from alternating clients: c = OPT with a client cookie of its own,
+// n = OPT without cookie, p = no OPT. Every reply must carry exactly the
+// cookie its own query sent (none when it sent none). Result: the client
+// cookie seen in each reply, "-" for none.
+func execCookie(mode, pattern string) vlib.Res {
 	l := startLive(false, nil)
 	defer l.Stop()
-	a := polluterQuery(0, 1)
-	bq := new(dns.Msg)
-	bq.SetQuestion("c1-s2-ok.z.c10.", dns.TypeTXT)
-	bq.Id = 1<<10 | 2
-	bq.SetEdns0(1232, false)
-	b, _ := bq.Pack()
+	var qs [][]byte
+	for i, c := range pattern {
+		m := new(dns.Msg)
+		m.SetQuestion(fmt.Sprintf("c%d-s%d-ok.z.c10.", i%2, i+1), dns.TypeTXT)
+		m.Id = uint16(i%2)<<10 | uint16(i+1)
+		if c != 'p' {
+			m.SetEdns0(1232, c == 'c' && i%3 == 0)
+			if c == 'c' {
+				o := m.IsEdns0()
+				o.Option = append(o.Option, &dns.EDNS0_COOKIE{Code: dns.EDNS0COOKIE, Cookie: fmt.Sprintf("%016x", 0xc00c1e0000000000+uint64(i+1))})
+			}
+		}
+		b, _ := m.Pack()
+		qs = append(qs, b)
+	}
 	or := "ok"
 	var replies [][]byte
 	if mode == "tcp" {
 		t := server.VerifC10NewTCP(nil, l.Srv, 8)
 		var stream []byte
-		for _, p := range [][]byte{a, b} {
+		for _, p := range qs {
 			stream = binary.BigEndian.AppendUint16(stream, uint16(len(p)))
 			stream = append(stream, p...)
 		}
@@ -411,35 +422,42 @@ func execCookie(mode string) vlib.Res {
 			return vlib.Res{Impl: "rig-error"}
 		}
 		defer rig.close()
-		for i, p := range [][]byte{a, b} {
-			_, _ = rig.step([]string{"udp", "send", fmt.Sprint(i), vlib.Hex(p)})
+		for i, p := range qs {
+			_, _ = rig.step([]string{"udp", "send", fmt.Sprint(i % 2), vlib.Hex(p)})
 			_, ds := rig.step([]string{"udp", "drain"})
 			for _, d := range ds {
-				if d.client != i && or == "ok" {
-					or = fail("usrv/cookie/udp/reply-to-wrong-client", "client c%d received a datagram while only c%d had a query outstanding", d.client, i)
+				if d.client != i%2 && or == "ok" {
+					or = fail("usrv/cookie/udp/reply-to-wrong-client", "client c%d received a datagram while only c%d had a query outstanding", d.client, i%2)
 				}
 				replies = append(replies, d.b)
 			}
 		}
 	}
-	var replyB []byte
-	if or == "ok" && len(replies) > 2 {
-		or = fail("usrv/cookie/"+mode+"/extra-reply", "%d replies to 2 queries", len(replies))
+	if or == "ok" && len(replies) != len(qs) {
+		or = fail("usrv/cookie/"+mode+"/reply-count", "%d replies to %d queries", len(replies), len(qs))
 	}
-	for i, q := range [][]byte{a, b} {
-		if or == "ok" && i < len(replies) {
-			if why := whyNotOwn(q, replies[i]); why != "" {
+	seen := make([]string, len(replies))
+	for i, rb := range replies {
+		seen[i] = "?"
+		r := new(dns.Msg)
+		if r.Unpack(rb) == nil {
+			seen[i] = "-"
+			if c := cookieOf(r); len(c) >= 16 {
+				seen[i] = c[:16]
+			}
+		}
+		if or == "ok" && i < len(qs) {
+			if why := whyNotOwn(qs[i], rb); why != "" {
 				or = fail("usrv/cookie/"+mode+"/not-own-bytes", "reply %d: %s", i+1, why)
 			}
-			replyB = replies[i]
 		}
 	}
-	return vlib.Res{Impl: fmt.Sprintf("replied=%s", vlib.B(replyB != nil && len(replies) == 2)), Oracle: or, Tags: "nt"}
+	return vlib.Res{Impl: strings.Join(seen, ","), Oracle: or, Tags: "nt"}
 }
 
 func execUSrv(f []string) vlib.Res {
 	if f[1] == "cookie" {
-		return execCookie(f[2])
+		return execCookie(f[2], f[3])
 	}
 	seed, steps, pat := vlib.AtoU64(f[2]), vlib.Atoi(f[3]), int(vlib.UnHex(f[4])[0])
 	ta, va := runUSrv(seed, steps, -1)
